@@ -62,4 +62,53 @@ def splitFactsOK (syms : List Name) (names : List (Name × Bool)) : Bool :=
       !Ref.prefixable b || splitsPrefix syms names (s ++ b.name))
   && TBase.all.all fun b => !splitsPrefix syms names b.display
 
+/-! ### the decision skeleton at the table the code holds = the skeleton at the exact table -/
+
+/-- a unit of the regenerated universe in two guises: with the regenerated prefix value (what the
+    code computes with) and with the exact power of ten (what the theorems are about) -/
+structure UPair where
+  gen : TU Rat
+  exact : TU Rat
+
+/-- every unit the regenerated tables admit: the six symbols, and each prefix of `unit_prefixes`
+    on each symbol whose regenerated row is prefixable -/
+def genUniverse : List UPair :=
+  (TBase.all.map fun b => (⟨⟨none, b⟩, ⟨none, b⟩⟩ : UPair)) ++
+  (Generated.tempPrefixes.flatMap fun (s, _, v) =>
+    (TBase.all.filter fun b => (genRow Rat b).prefixable).map fun b =>
+      let e : Rat := match Ref.siPrefixes.lookup s with
+        | some k => Unyt.Ref.pow10 k
+        | none => 0
+      (⟨⟨some ⟨s, ratOfBits v⟩, b⟩, ⟨some ⟨s, e⟩, b⟩⟩ : UPair))
+
+/-- what a call decides before any number is computed: the refusal, or the label and whether the
+    second operand is rescaled -/
+def skeleton (r : Except Err (Option (TU Rat) × Option Rat)) : Option Err × Option Name × Bool :=
+  match r with
+  | .error e => (some e, none, false)
+  | .ok (l, c) => (none, l.map (·.repr), c.isSome)
+
+def errOf {α : Type} (r : Except Err α) : Option Err :=
+  match r with
+  | .error e => some e
+  | .ok _ => none
+
+instance : RPow Rat := ⟨fun x _ => x⟩  -- only refusals are compared below; the scale is not
+
+/-- for every ordered pair of units of the regenerated universe, the model decides the same
+    refusal / label / rescaling under `rule` on the regenerated table as on the exact table -/
+def decisionsMatchRule (r : Rule) : Bool :=
+  genUniverse.all fun a => genUniverse.all fun b =>
+    skeleton (binaryPrep r (genTab Rat) a.gen b.gen) == skeleton (binaryPrep r Ref.exactTab a.exact b.exact)
+
+/-- likewise the refusals of `*`, `/`, the unary forms and `diff_helper` -/
+def decisionsMatchOther : Bool :=
+  genUniverse.all fun a =>
+    (genUniverse.all fun b =>
+      errOf (tempMul (genTab Rat) (.temp a.gen) (.temp b.gen)) == errOf (tempMul Ref.exactTab (.temp a.exact) (.temp b.exact))
+      && errOf (tempDivide (genTab Rat) (.temp a.gen) (.temp b.gen)) == errOf (tempDivide Ref.exactTab (.temp a.exact) (.temp b.exact)))
+    && errOf (diffHelper (genTab Rat) a.gen) == errOf (diffHelper Ref.exactTab a.exact)
+    && errOf (tempUnary (genTab Rat) .square a.gen) == errOf (tempUnary Ref.exactTab .square a.exact)
+    && errOf (tempUnary (genTab Rat) .sqrt a.gen) == errOf (tempUnary Ref.exactTab .sqrt a.exact)
+
 end Unyt.Temp
